@@ -129,6 +129,22 @@ template <typename T> void int_range_iterate()
   verif_reach("end");
 }
 
+// range::size on ranges with MORE elements than the (narrow, signed) difference type can hold: the count wraps in the
+// difference type and "as unsigned" restores it - the result, read as an unsigned number of its own width, is the number
+// of elements whenever that number fits that width (always, for a range over T itself).  No iteration: b, e unrestricted.
+template <typename T> void int_range_wide_size()
+{
+  T const b{tr<T>::make(verif_u64("b"))}, e{tr<T>::make(verif_u64("e"))};
+  W const B{tr<T>::val(b)}, E{tr<T>::val(e)};
+  W const count{E > B ? E - B : 0};
+  fcppt::int_range<T> const r{fcppt::make_int_range(b, e)};
+  auto const sz{fcppt::range::size(r)};
+  u64 const got{static_cast<u64>(sz)};
+  verif_out("got", got);
+  verif_assert(got == static_cast<u64>(count), "range::size = number of elements, also beyond the maximum of the signed difference type");
+  verif_reach("end");
+}
+
 template <typename T> void int_range_count()
 {
   T const c{tr<T>::make(verif_u64("count"))};
@@ -261,3 +277,5 @@ H(h_iterator_range, iterator_range())
 //@harness h_iterator_range tier=quick loop=12 hang_s=60
 H(h_adapt_range, adapt_range())
 //@harness h_adapt_range param len=0..5 tier=quick loop=12 hang_s=60
+H(h_int_range_wide_size_i8, int_range_wide_size<std::int8_t>()) H(h_int_range_wide_size_i16, int_range_wide_size<std::int16_t>())
+//@harness h_int_range_wide_size_{T} for T in i8,i16 tier=quick
